@@ -101,9 +101,9 @@ def confirm(patch, demo):
     return out
 
 
-def ingest(prop, n, wt=None):
+def ingest(prop, n, wt=None, label=None):
     wt = wt or "/tmp/wt-%s" % prop
-    sid = "%s-%s" % (prop, n)
+    sid = "%s-%s" % (prop, label or n)
     dst = os.path.join(SEEDED, sid)
     os.makedirs(dst, exist_ok=True)
     shutil.copy(os.path.join(wt, "_seed", "change%s.diff" % n),
@@ -145,7 +145,7 @@ def rerun(sid, props=None, tier="quick"):
 if __name__ == "__main__":
     cmd = sys.argv[1]
     if cmd == "ingest":
-        ingest(sys.argv[2], sys.argv[3], *sys.argv[4:5])
+        ingest(sys.argv[2], sys.argv[3], *sys.argv[4:6])
     elif cmd == "run":
         rerun(sys.argv[2], sys.argv[3:] or None)
     elif cmd == "all":
